@@ -48,6 +48,7 @@ type Run struct {
 	Leaked     bool // blocked goroutines remained at the end of the bubble
 	Sample     interface{}
 	WantGC     bool // the run allocated a lot: collect before the next one
+	World      interface{} // world-private state, for Classify
 
 	trace     []string
 	traceCap  int
@@ -365,4 +366,27 @@ func Sleep(d time.Duration)                  { verifhook.Sleep(d) }
 func After(d time.Duration) <-chan time.Time { return verifhook.After(d) }
 func WithTimeout(ctx context.Context, d time.Duration) (context.Context, context.CancelFunc) {
 	return verifhook.WithTimeout(ctx, d)
+}
+
+// FreeRun disables all yield sites for the rest of the run and releases every
+// parked goroutine (deterministically, in stable order), so the code under
+// test proceeds without scheduler intervention. Lock waiters are released by
+// the unlock that they wait for.
+func (r *Run) FreeRun() {
+	r.siteDen = 0
+	for {
+		en := r.Enabled()
+		if len(en) == 0 {
+			return
+		}
+		r.Release(en[0])
+	}
+}
+
+// CurrentTask is the name of the calling goroutine ("" for unknown ones).
+func (r *Run) CurrentTask() string {
+	g := goid()
+	r.mu.Lock()
+	defer r.mu.Unlock()
+	return r.gname[g]
 }
